@@ -17,7 +17,9 @@ of `ticks`, of `labels`, and the `index` attribute of a link group.
 
 Every function mirrors the Python method named in its comment, in the code's own order of checks
 and writes (the code as of the `fix:` commit "a refused RangeDimension.link_data_array /
-link_data_frame deleted the dimension's ticks": validation first, the ticks go once the link exists).  Not modelled: links to a `DataFrame` column (`link_data_frame`),
+link_data_frame deleted the dimension's ticks": validation first, the ticks go once the link exists).
+Links to a column of a `DataFrame` (`link_data_frame`) are modelled for frames of float columns (content
+of the compound dataset and the `units` attribute are side tables like the array data).  Not modelled:
 the pre-1.5 "alias range dimension" layout (`is_alias and not has_link`, unreachable through the
 current API), `delete_dimensions`, polynomial calibration (the link reads the *stored* values:
 `DimensionLink.linked_data` is `h5group.get_data("data")`).
@@ -37,12 +39,21 @@ def look {α : Type} (m : List (Nat × α)) (k : Nat) : Option α := (m.find? (f
 def put {α : Type} (m : List (Nat × α)) (k : Nat) (v : α) : List (Nat × α) :=
   m.filter (fun e => e.1 != k) ++ [(k, v)]
 
+/-- stored content of a data frame of float columns: the field names of the compound type, the
+`units` attribute (one entry per column; `none` where h5py stores an empty string) and the rows -/
+structure FrameData where
+  cols : List String
+  units : List (Option String)
+  rows : List (List Rat)
+  deriving DecidableEq, Repr, Inhabited
+
 structure DState where
   g : Graph := {}
-  data : List (Nat × NdData) := []          -- content of `data` datasets
+  data : List (Nat × NdData) := []          -- content of `data` datasets of arrays
   ticks : List (Nat × List Rat) := []       -- content of `ticks` datasets
   labels : List (Nat × List String) := []   -- content of `labels` datasets
-  index : List (Nat × List Int) := []       -- `index` attribute of `link` groups
+  index : List (Nat × List Int) := []       -- `index` attribute of `link` groups (a frame link: `[column]`)
+  frames : List (Nat × FrameData) := []     -- content (+ `units`) of `data` datasets of frames
   deriving Repr, Inhabited
 
 /-! ## NumPy basic indexing with integers and one full slice -/
@@ -130,8 +141,32 @@ def hasLink (g : Graph) (d : Nat) : Bool := g.hasChild d "link"
 def linkTarget (g : Graph) (d : Nat) : Option Nat :=
   (g.child? d "link").bind fun ln => ((g.links ln)[0]?).map (·.2)
 
+/-- `DimensionLink._data_object_type` of the descriptor's link group ("" when there is none) -/
+def linkType (g : Graph) (d : Nat) : String :=
+  ((g.child? d "link").bind fun ln => g.getAttr ln "data_object_type").getD ""
+
 /-- stored content of the array node `a` -/
 def dataOf (s : DState) (a : Nat) : Option NdData := (s.g.child? a "data").bind fun ds => look s.data ds
+
+/-- stored content of the frame node `f` -/
+def frameOf (s : DState) (f : Nat) : Option FrameData := (s.g.child? f "data").bind fun ds => look s.frames ds
+
+/-- the column a frame link points at (`DimensionLink.index` of a DataFrame link) -/
+def linkColumn (s : DState) (d : Nat) : Option Nat :=
+  (s.g.child? d "link").bind fun ln => (look s.index ln).bind fun iv =>
+    match iv with
+    | [c] => if 0 ≤ c then some c.toNat else none
+    | _ => none
+
+/-- the frame node at a path (it must be a DataFrame) -/
+def frameAt (s : DState) (p : Path) : Except Err Nat :=
+  match resolve s.g rootLoc p with
+  | none => .error .keyError
+  | some l => if kindOf s.g l.key == "data_frame" then .ok l.key else .error .attributeError
+
+/-- column `c` of the rows (`tuple(row[index] for row in data)`) -/
+def column (fd : FrameData) (c : Nat) : Except Err (List Rat) :=
+  fd.rows.mapM fun r => match r[c]? with | some v => .ok v | none => .error .indexError
 
 /-! ## arrays -/
 
@@ -161,6 +196,52 @@ def writeData (s : DState) (p : Path) (vals : List Rat) : Except Err DState :=
       | some d =>
         if vals.length != prod d.shape then .error .valueError
         else .ok { s with data := put s.data ds { d with vals := vals } }
+
+/-! ## data frames -/
+
+/-- `Block.create_data_frame(name, type, col_names=…, col_dtypes=[float]*n, data=rows)` followed by
+`frame.units = units` — the one form generated: distinct column names, one unit (or None) per column,
+rows as long as there are columns.  `check_entity_name_and_type`, then the duplicate test on the
+(lazily created) `data_frames` group, then `Entity.create_new` + `create_dataset("data")`. -/
+def createFrame (s : DState) (owner : Path) (name type : String) (cols : List String)
+    (units : List (Option String)) (rows : List (List Rat)) : Except Err DState :=
+  match resolve s.g rootLoc owner with
+  | none => .error .keyError
+  | some o =>
+    if kindOf s.g o.key != "block" then .error .attributeError
+    else
+      match checkNameType name type with
+      | .error e => .error e
+      | .ok () =>
+        if (match s.g.child? o.key "data_frames" with | some c => s.g.hasChild c name | none => false) then
+          .error .duplicateName
+        else if cols.isEmpty || !cols.Nodup || units.length != cols.length
+            || rows.any (fun r => r.length != cols.length) then .error .valueError    -- never generated
+        else
+          match entityCreateNew s.g o.key "data_frames" name type "data_frame" with
+          | .error e => .error e
+          | .ok (g1, k) =>
+            let g2 := addDataset g1 k "data"
+            match g2.child? k "data" with
+            | some ds => .ok { s with g := g2, frames := put s.frames ds { cols := cols, units := units, rows := rows } }
+            | none => .error .keyError
+
+/-- `frame.write_column(values, index=c)` through any path: one value per row, an existing column -/
+def writeColumn (s : DState) (p : Path) (c : Nat) (vals : List Rat) : Except Err DState :=
+  match frameAt s p with
+  | .error e => .error e
+  | .ok f =>
+    match s.g.child? f "data" with
+    | none => .error .keyError
+    | some ds =>
+      match look s.frames ds with
+      | none => .error .keyError
+      | some fd =>
+        if vals.length != fd.rows.length then .error .valueError
+        else if c ≥ fd.cols.length then .error .indexError
+        else
+          let fd' : FrameData := { fd with rows := (fd.rows.zip vals).map fun rv => rv.1.set c rv.2 }
+          .ok { s with frames := put s.frames ds fd' }
 
 /-! ## dimension descriptors -/
 
@@ -231,14 +312,23 @@ def appendDim (s : DState) (p : Path) (spec : DimSpec) : Except Err DState :=
 def checkIndex (iv : List Int) : Bool :=
   (iv.filter (· == -1)).length == 1 && (iv.filter (· < 0)).length == 1
 
-/-- `DimensionLink.create_new(…, dataobj, "DataArray", index)` below the descriptor `dn` -/
-def createLinkGroup (s : DState) (dn t : Nat) (tid : String) (iv : List Int) : DState :=
+/-- `DimensionLink.create_new(…, dataobj, dotype, index)` below the descriptor `dn` (`dotype` is
+"DataArray" or "DataFrame"; the index of a frame link is the one-element list `[column]`) -/
+def createLinkGroup (s : DState) (dn t : Nat) (tid dotype : String) (iv : List Int) : DState :=
   let (g1, i) := s.g.freshId
   let (g2, ln) := g1.ensureGroup dn "link"
   let g3 := g2.setAttr ln "entity_id" (some i)
-  let g4 := g3.setAttr ln "data_object_type" (some "DataArray")
+  let g4 := g3.setAttr ln "data_object_type" (some dotype)
   let g5 := createLinkIn g4 ln tid t
   { s with g := g5, index := put s.index ln iv }
+
+/-- what `link_data_array` and `link_data_frame` do once the arguments are accepted: an existing link
+is removed, the new link group is made, and a RangeDimension then drops its explicit ticks -/
+def attachLink (s : DState) (dn target : Nat) (tid dotype : String) (iv : List Int) : DState :=
+  let g1 := if hasLink s.g dn then s.g.delLink dn "link" else s.g
+  let s1 := createLinkGroup { s with g := g1 } dn target tid dotype iv
+  if kindOf s.g dn == kDimRange && s1.g.hasChild dn "ticks" then { s1 with g := s1.g.delLink dn "ticks" }
+  else s1
 
 /-- `RangeDimension.link_data_array` / `Dimension.link_data_array` (a SetDimension uses the base
 method and keeps its stored labels; a SampledDimension refuses) -/
@@ -254,12 +344,24 @@ def linkDataArray (s : DState) (p : Path) (i : Nat) (target : Nat) (iv : List In
       | some d, some tid =>
         if d.shape.length != iv.length then .error .valueError       -- IncompatibleDimensions
         else if !checkIndex iv then .error .valueError
-        else
-          let g1 := if hasLink s.g dn then s.g.delLink dn "link" else s.g
-          let s1 := createLinkGroup { s with g := g1 } dn target tid iv
-          -- RangeDimension: the ticks are replaced by the link
-          if kind == kDimRange && s1.g.hasChild dn "ticks" then .ok { s1 with g := s1.g.delLink dn "ticks" }
-          else .ok s1
+        else .ok (attachLink s dn target tid "DataArray" iv)
+      | _, _ => .error .keyError
+
+/-- `RangeDimension.link_data_frame` / `Dimension.link_data_frame(frame, column)` -/
+def linkDataFrame (s : DState) (p : Path) (i : Nat) (target : Nat) (c : Int) : Except Err DState :=
+  match dimAt s p i with
+  | .error e => .error e
+  | .ok dn =>
+    let kind := kindOf s.g dn
+    if kind == kDimSample then .error .runtimeError
+    -- `if not 0 <= index < len(data_frame.columns)`: a negative index is refused before the frame is looked at
+    else if c < 0 then .error .indexError                                      -- OutOfBounds
+    else if kindOf s.g target != "data_frame" then .error .attributeError     -- `data_frame.columns`
+    else
+      match frameOf s target, s.g.entityId target with
+      | some fd, some tid =>
+        if c ≥ (fd.cols.length : Int) then .error .indexError                  -- OutOfBounds
+        else .ok (attachLink s dn target tid "DataFrame" [c])
       | _, _ => .error .keyError
 
 /-- `Dimension.remove_link()` -/
@@ -305,7 +407,18 @@ def setDimAttr (s : DState) (p : Path) (i : Nat) (attr : String) (v : Option Str
     else if attr == "unit" && kind == kDimSet then .error .attributeError
     else if kind == kDimRange && hasLink s.g dn then
       match linkTarget s.g dn with
-      | some t => .ok { s with g := s.g.setAttr t attr v }
+      | some t =>
+        if linkType s.g dn == "DataFrame" then
+          -- `DimensionLink.unit` setter rewrites one entry of the frame's `units`; the label cannot be set
+          if attr == "label" then .error .runtimeError
+          else
+            match (s.g.child? t "data").bind fun ds => (look s.frames ds).map fun fd => (ds, fd),
+                  linkColumn s dn with
+            | some (ds, fd), some c =>
+              if c < fd.units.length then .ok { s with frames := put s.frames ds { fd with units := fd.units.set c v } }
+              else .error .indexError
+            | _, _ => .error .runtimeError
+        else .ok { s with g := s.g.setAttr t attr v }
       | none => .error .runtimeError          -- dangling link (the target was deleted)
     else .ok { s with g := s.g.setAttr dn attr v }
 
@@ -319,9 +432,14 @@ def linkValues (s : DState) (dn : Nat) : Except Err (List Rat) :=
     match linkTarget s.g dn with
     | none => .error .runtimeError            -- dangling
     | some t =>
-      match dataOf s t, look s.index ln with
-      | some d, some iv => selectVector d iv
-      | _, _ => .error .runtimeError
+      if linkType s.g dn == "DataFrame" then
+        match frameOf s t, linkColumn s dn with
+        | some fd, some c => column fd c
+        | _, _ => .error .runtimeError
+      else
+        match dataOf s t, look s.index ln with
+        | some d, some iv => selectVector d iv
+        | _, _ => .error .runtimeError
 
 /-- `RangeDimension.ticks` -/
 def readTicks (s : DState) (dn : Nat) : Except Err (List Rat) :=
@@ -344,18 +462,27 @@ def readLabels (s : DState) (dn : Nat) : Except Err Labels :=
     | some k => .ok (.strs ((look s.labels k).getD []))
     | none => .ok (.strs [])
 
-/-- `dim.unit` / `dim.label` getters -/
+/-- `dim.unit` / `dim.label` getters: a DataArray link reports the array's attribute, a DataFrame link
+the column's entry of `units` / the column's name -/
 def readDimAttr (s : DState) (dn : Nat) (attr : String) : Except Err (Option String) :=
   if kindOf s.g dn == kDimRange && hasLink s.g dn then
     match linkTarget s.g dn with
-    | some t => .ok (s.g.getAttr t attr)
+    | some t =>
+      if linkType s.g dn == "DataFrame" then
+        match frameOf s t, linkColumn s dn with
+        | some fd, some c =>
+          if attr == "unit" then (match fd.units[c]? with | some u => .ok u | none => .error .indexError)
+          else if attr == "label" then (match fd.cols[c]? with | some n => .ok (some n) | none => .error .indexError)
+          else .ok none
+        | _, _ => .error .runtimeError
+      else .ok (s.g.getAttr t attr)
     | none => .error .runtimeError
   else .ok (s.g.getAttr dn attr)
 
-/-- `RangeDimension.is_alias` (current layout) -/
+/-- `RangeDimension.is_alias` (current layout): no ticks, and a link to a DataArray -/
 def isAlias (s : DState) (dn : Nat) : Bool :=
   if s.g.hasChild dn "ticks" then false
-  else hasLink s.g dn
+  else hasLink s.g dn && linkType s.g dn == "DataArray"
 
 /-! ## operations and histories -/
 
@@ -369,6 +496,10 @@ inductive DOp where
   | setTicks (p : Path) (i : Nat) (ts : List Rat)
   | setLabels (p : Path) (i : Nat) (ls : List String)
   | setDimAttr (p : Path) (i : Nat) (attr : String) (v : Option String)
+  | createFrame (owner : Path) (name type : String) (cols : List String) (units : List (Option String))
+      (rows : List (List Rat))
+  | writeColumn (p : Path) (c : Nat) (vals : List Rat)
+  | linkDataFrame (p : Path) (i : Nat) (target : Path) (c : Int)
   deriving Repr, Inhabited
 
 def applyD (s : DState) : DOp → Option (Except Err DState)
@@ -381,6 +512,9 @@ def applyD (s : DState) : DOp → Option (Except Err DState)
   | .setTicks p i ts => some (setTicks s p i ts)
   | .setLabels p i ls => some (setLabels s p i ls)
   | .setDimAttr p i a v => some (setDimAttr s p i a v)
+  | .createFrame o n t cs us rs => some (createFrame s o n t cs us rs)
+  | .writeColumn p c vs => some (writeColumn s p c vs)
+  | .linkDataFrame p i tp c => (resolve s.g rootLoc tp).map fun l => linkDataFrame s p i l.key c
 
 /-- a refused call leaves the state as it is -/
 def stepD (s : DState) (op : DOp) : DState :=
